@@ -11,8 +11,12 @@ claim('C10', 'Proof by inductive object invariant on the real Frame class (abstr
       '(no image / jpg-only / raw writable or read-only, cached jpg, cached ro views, GRAY/BGR/RGB) each accessor and copy() returns the documented view of the '
       'CURRENT pixels, fresh copies share no memory, no array is made writable in place, and FrameInv (cached JPEG / cached views only for immutable pixels) '
       'is re-established, also after the user writes through every writable image; hence for operation sequences of every length.', '6-C10')
+claim('C09', 'Proof of the round-trip postcondition on the real MQ.frames2topicmsgs / MQ.topicmsgs2frames and the real Frame members they call: for every '
+      'frame kind (no image, jpg-only, raw writable/read-only, jpg-cached), GRAY/BGR/RGB, empty or non-empty data and outputs_jpg in {None, True, False}: '
+      'same topics, equal data, same image presence, same height/width/format, raw pixels identical, existing JPEG kept byte for byte, otherwise an '
+      'encoding of the sent pixels that decodes to the declared shape, message part count per the dataidx arithmetic. Pixels/data/sizes symbolic; 0..2 topics.', '6-C09')
 _todo = 'check not built yet in this session (planned, see DESIGN.md section 6); not claimed until its obligations are discharged'
-for _p in ('C01', 'C02', 'C03', 'C04', 'C05', 'C07', 'C08', 'C09', 'C11', 'C12', 'C13', 'C14', 'C15', 'C18'):
+for _p in ('C01', 'C02', 'C03', 'C04', 'C05', 'C07', 'C08', 'C11', 'C12', 'C13', 'C14', 'C15', 'C18'):
     NA[_p] = _todo
 NA['C06'] = ('liveness under fairness and bounded-time recovery across several processes: not expressible as pre/postconditions or invariants of one call; '
              'termination is not proved by this verifier (DESIGN.md section 7); its safety ingredients are proved under C02/C04/C05')
